@@ -17,12 +17,14 @@ use tokio::sync::oneshot;
 use tracing::{debug, error, warn};
 use uuid::Uuid;
 
-use crate::bucket::event_index::ClosedEventIndex;
+use crate::bucket::event_index::{ClosedEventIndex, OpenEventIndex};
 use crate::bucket::iter::{PartitionIter, PartitionIterConfig, StreamIter, StreamIterConfig};
-use crate::bucket::partition_index::{ClosedPartitionIndex, PartitionIndexRecord};
+use crate::bucket::partition_index::{
+    ClosedPartitionIndex, OpenPartitionIndex, PartitionIndexRecord,
+};
 use crate::bucket::segment::{BucketSegmentReader, CommittedEvents, EventRecord};
-use crate::bucket::stream_index::{ClosedStreamIndex, StreamIndexRecord};
-use crate::bucket::{BucketId, BucketSegmentId, PartitionId, SegmentId};
+use crate::bucket::stream_index::{ClosedStreamIndex, OpenStreamIndex, StreamIndexRecord};
+use crate::bucket::{BucketId, BucketSegmentId, PartitionId, SegmentId, SegmentKind};
 use crate::cache::BLOCK_SIZE;
 use crate::error::{
     DatabaseError, EventValidationError, MetadataError, PartitionIndexError, ReadError,
@@ -682,26 +684,64 @@ impl DatabaseBuilder {
                 continue;
             };
 
-            let reader = BucketSegmentReader::open(events, None)?;
+            let mut reader = BucketSegmentReader::open(events, None)?;
 
-            let event_index = event_index
-                .map(|path| ClosedEventIndex::open(bucket_segment_id, path))
-                .transpose()?;
-            let partition_index = partition_index
-                .map(|path| ClosedPartitionIndex::open(bucket_segment_id, path))
-                .transpose()?;
-            let stream_index = stream_index
-                .map(|path| {
-                    ClosedStreamIndex::open(bucket_segment_id, path, self.segment_size_bytes)
-                })
-                .transpose()?;
+            // The index files of a sealed segment are written in the background after the
+            // rollover and are never fsynced: after a crash they can be missing, empty or cut
+            // short. The segment's events are complete, so such an index is rebuilt from them.
+            let event_index_path = event_index.unwrap_or_else(|| {
+                SegmentKind::EventIndex.get_path(&dir, bucket_segment_id)
+            });
+            let event_index = match ClosedEventIndex::open(bucket_segment_id, &event_index_path) {
+                Ok(index) => index,
+                Err(err) => {
+                    warn!("rebuilding event index of segment {bucket_segment_id}: {err}");
+                    let mut index = OpenEventIndex::open(bucket_segment_id, &event_index_path)?;
+                    index.hydrate(&mut reader)?;
+                    index.close(&thread_pool)?
+                }
+            };
+            let partition_index_path = partition_index.unwrap_or_else(|| {
+                SegmentKind::PartitionIndex.get_path(&dir, bucket_segment_id)
+            });
+            let partition_index =
+                match ClosedPartitionIndex::open(bucket_segment_id, &partition_index_path) {
+                    Ok(index) => index,
+                    Err(err) => {
+                        warn!("rebuilding partition index of segment {bucket_segment_id}: {err}");
+                        let mut index =
+                            OpenPartitionIndex::open(bucket_segment_id, &partition_index_path)?;
+                        index.hydrate(&mut reader)?;
+                        index.close(&thread_pool)?
+                    }
+                };
+            let stream_index_path = stream_index.unwrap_or_else(|| {
+                SegmentKind::StreamIndex.get_path(&dir, bucket_segment_id)
+            });
+            let stream_index = match ClosedStreamIndex::open(
+                bucket_segment_id,
+                &stream_index_path,
+                self.segment_size_bytes,
+            ) {
+                Ok(index) => index,
+                Err(err) => {
+                    warn!("rebuilding stream index of segment {bucket_segment_id}: {err}");
+                    let mut index = OpenStreamIndex::open(
+                        bucket_segment_id,
+                        &stream_index_path,
+                        self.segment_size_bytes,
+                    )?;
+                    index.hydrate(&mut reader)?;
+                    index.close(&thread_pool)?
+                }
+            };
 
             reader_pool.add_bucket_segment(
                 bucket_segment_id,
                 &reader,
-                event_index.as_ref(),
-                partition_index.as_ref(),
-                stream_index.as_ref(),
+                Some(&event_index),
+                Some(&partition_index),
+                Some(&stream_index),
             );
         }
 
